@@ -213,9 +213,12 @@ def cntWord (item : String) (cols : Option Nat) (index : Bool) : Nat → List St
   | n, step :: rest, toks =>
     let arg : Option Nat := (step.drop 1).toString.toNat?
     match (step.take 1).toString, arg with
-    | "n", _ | "b", _ => if n > 0 then cntWord item cols index (n - 1) rest (toks ++ [item]) else cntWord item cols index 0 rest (toks ++ ["none"])
+    | "n", _ | "b", _ =>
+      let (y, n') := Seq.cstep n .next                      -- the Spec's counting form of the ideal sequence (C08_counting)
+      cntWord item cols index n' rest (toks ++ [if y then item else "none"])
     | "N", some k | "B", some k =>
-      if k < n then cntWord item cols index (n - k - 1) rest (toks ++ [item]) else cntWord item cols index 0 rest (toks ++ ["none"])
+      let (y, n') := Seq.cstep n (.nth k)
+      cntWord item cols index n' rest (toks ++ [if y then item else "none"])
     | "l", _ => cntWord item cols index n rest (toks ++ [toString n])
     | "h", _ => cntWord item cols index n rest (toks ++ [s!"{n}:{n}"])
     | "w", _ => match cols with
